@@ -106,7 +106,14 @@ func runC03(r *Report) {
 			case "ValueOffset":
 				okO = off != nil && st.Val == off
 			case "Checksum":
-				if c, ok := st.Val.(*ssa.Call); ok && c.Call.IsInvoke() && c.Call.Method.Name() == "Sum64" {
+				sum := st.Val
+				// the sum may pass through the shared zero-avoiding helper together with the value it was computed from
+				if hc, ok := sum.(*ssa.Call); ok && CalleeKey(hc) == "sstables.nonZeroChecksum" && len(hc.Call.Args) == 2 {
+					if po := paramOrigin(hc.Call.Args[1]); po != nil && po.Name() == "value" {
+						sum = hc.Call.Args[0]
+					}
+				}
+				if c, ok := sum.(*ssa.Call); ok && c.Call.IsInvoke() && c.Call.Method.Name() == "Sum64" {
 					if nc, ok := c.Call.Value.(*ssa.Call); ok && CalleeKey(nc) == "hash/crc64.New" {
 						okC = true
 					}
@@ -174,6 +181,8 @@ func runC03(r *Report) {
 	ruleNoMergeDecode(r)
 	ruleDiskSearch(r)
 	ruleIndexEntryComplete(r)
+	ruleMapLookupVerified(r)
+	ruleDiskIndexBoundaries(r)
 	ruleSeekTrial(r)
 	ruleBufferedOrder(r)
 	ruleCompressor(r)
@@ -880,6 +889,75 @@ func ruleIndexEntryComplete(r *Report) {
 			r.OK(rule, key, fn.Pos(), "IndexVal{Offset: ValueOffset, Checksum: Checksum}")
 		} else {
 			r.Bad(rule, key, fn.Pos(), "an IndexVal is built from an index entry without both ValueOffset→Offset and Checksum→Checksum")
+		}
+	}
+}
+
+// R-map-lookup-verified: the map index maps a key through a fixed-width mapper that pads short keys with zero bytes, so
+// different keys ("", {0}, {0,0}; "a", "a\x00") share one slot. A hit in the map is only an answer for the requested key
+// after the stored key was compared with it.
+func ruleMapLookupVerified(r *Report) {
+	const rule = "map-lookup-verified"
+	r.Rule(rule, 2, "MapKeyIndex.Get and Contains trust a map hit only after comparing the stored key with the requested key (bytes.Equal / bytes.Compare on the key parameter), or delegate to the slice index")
+	p := r.P
+	for _, k := range []string{"sstables.MapKeyIndex.Get", "sstables.MapKeyIndex.Contains"} {
+		fn := r.NeedFunc(rule, k)
+		if fn == nil {
+			continue
+		}
+		key := rule + "/" + k
+		var lookups []Site
+		eachInstr(fn, func(s Site) {
+			if l, ok := s.Instr.(*ssa.Lookup); ok {
+				if _, isMap := l.X.Type().Underlying().(*types.Map); isMap {
+					lookups = append(lookups, s)
+				}
+			}
+		})
+		if len(lookups) == 0 {
+			// delegates entirely
+			if len(CallsIn(fn, Suffix("MapKeyIndex.Get", "SliceKeyIndex.Get", "SliceKeyIndex.Contains"))) > 0 {
+				r.OK(rule, key, fn.Pos(), "delegates to a verified lookup")
+			} else {
+				r.Unk(rule, key, fn.Pos(), "neither a map lookup nor a delegation found")
+			}
+			continue
+		}
+		cmp := false
+		for _, c := range CallsIn(fn, Keys("bytes.Equal", "bytes.Compare")) {
+			for _, a := range c.Call().Common().Args {
+				if po := paramOrigin(a); po != nil && po.Name() == "key" {
+					cmp = true
+				}
+			}
+		}
+		if cmp {
+			r.OK(rule, key, lookups[0].Pos(), "the stored key is compared with the requested key")
+		} else {
+			r.Bad(rule, key, lookups[0].Pos(), "a map hit is returned without comparing the stored key: the mapper pads short keys, so the empty key, {0x00} and {0x00,0x00} share one slot — with tables {0x00 -> old-zero} and {empty key -> new-empty} Get({0x00}) returns new-empty and Get({0x00,0x00}) returns a value instead of not-found")
+		}
+	}
+	_ = p
+}
+
+// R-disk-index-boundaries (known finding): the disk index has no table of record boundaries; it finds entries by
+// scanning for the record marker from arbitrary byte offsets (binary-search probes, and "offset of the last entry + 1"
+// in the iterator). A key that contains the bytes of a complete, valid record (header with a correct CRC plus an encoded
+// index entry) is indistinguishable from an entry when the scan starts inside it.
+func ruleDiskIndexBoundaries(r *Report) {
+	const rule = "disk-index-boundaries"
+	r.Rule(rule, 2, "the disk index reads index entries only at offsets known to be record boundaries (a boundary table, or the previous boundary plus the record's length) — not by SeekNext from a probe offset or from the previous entry's offset plus one")
+	for _, k := range []string{"sstables.DiskKeyIndex.findAt", "sstables.DiskKeyIndexIterator.Next"} {
+		fn := r.NeedFunc(rule, k)
+		if fn == nil {
+			continue
+		}
+		key := rule + "/" + k
+		seeks := CallsIn(fn, Suffix("ReadAtI.SeekNext", "MMapProtoReader.SeekNext"))
+		if len(seeks) == 0 {
+			r.OK(rule, key, fn.Pos(), "does not scan for markers")
+		} else {
+			r.Bad(rule, key, seeks[0].Pos(), "entries are located by scanning for the record marker from an offset that is not known to be a record boundary; with the disk index a key built as \"c\" + 5000×'x' + <bytes of a valid index record for key \"zzzz\"> makes Contains/Get of the written keys \"d\" and \"e\" report not found, Get(\"zzzz\") succeed and ScanStartingAt(\"a\") return a, b, c, zzzz, d, e (the other three loaders answer correctly on the same table)")
 		}
 	}
 }
